@@ -310,16 +310,45 @@ class SimpleJSONRPCDispatcher(SimpleXMLRPCDispatcher, object):
         try:
             # Compute the string representation of the dictionary/list
             return jsonrpclib.jdumps(response, self.encoding)
+        except Exception:
+            # A response can't be serialized (e.g. a request ID loaded as a
+            # bean, or a result the JSON library rejects): answer with an
+            # internal error for that response only, instead of raising
+            if isinstance(response, utils.ListType):
+                return "[{0}]".format(
+                    ", ".join(self._safe_jdumps(entry) for entry in response)
+                )
+            return self._safe_jdumps(response)
+
+    def _safe_jdumps(self, response):
+        """
+        Computes the string representation of a single response dictionary,
+        replaced by an internal error response if it can't be serialized
+
+        :param response: A JSON-RPC response dictionary
+        :return: A JSON-RPC response string
+        """
+        try:
+            return jsonrpclib.jdumps(response, self.encoding)
         except Exception as ex:
-            # The response can't be serialized (e.g. a request ID loaded as
-            # a bean): answer with an internal error instead of raising
+            # Keep the request ID, if it can be serialized itself
+            rpcid = response.get("id")
+            try:
+                jsonrpclib.jdumps(rpcid, self.encoding)
+            except Exception:
+                rpcid = None
+
             fault = Fault(
                 -32603,
                 "{0}:{1}".format(type(ex).__name__, ex),
+                rpcid=rpcid,
                 config=self.json_config,
             )
             _logger.error("Error serializing JSON-RPC result: %s", fault)
-            return fault.response()
+            # Answer in the form of the response that can't be sent
+            return fault.response(
+                version=2.0 if "jsonrpc" in response else 1.0
+            )
 
     def _marshaled_single_dispatch(self, request, dispatch_method=None):
         """
